@@ -47,13 +47,14 @@ Local Open Scope R_scope.
                                       1 <= rows M is sharp: a 0-dimensional system panics (norm_inf reads vec[0]).
    E. nonlinear systems of ANY dimension in the decoupled case F(x)_i = f_i(x_i) with the exact diagonal Jacobian
       (solve_jacobian over R): sysjac_decoupled_pass, newton_decoupled_no_panic / _ok_close / _ok -- both halves,
-      sup-norm basin, quadratic contraction; the dim x dim elimination of each pass is discharged by C01.
+      sup-norm basin, quadratic contraction; the dim x dim elimination of each pass is discharged by C01;
+      and the same for the finite-difference variant (solve): newton_fd_decoupled_no_panic / _ok_close / _ok.
    Still not proved: float rounding (tie); basins for COUPLED nonlinear systems of dimension > 1; nonlinear complex functions.
    ====================================================================================== *)
 From Coq Require Import Lia.
 From OV Require Import Proofs.SolveBase Proofs.Solve Proofs.SolveQc Proofs.Newton2Sys Proofs.Newton2Real
   Proofs.Newton2Scalar Proofs.Newton2Mono Proofs.Newton2Sqrt Proofs.Newton2Sys1d Proofs.Newton2Diag Proofs.Newton2Wit.
-From OV Require Proofs.SolveC Proofs.Newton2Inst Proofs.Newton2Cplx Proofs.Newton2Cdq.
+From OV Require Proofs.SolveC Proofs.Newton2Inst Proofs.Newton2Cplx Proofs.Newton2Cdq Proofs.Newton2DiagFD.
 Local Close Scope R_scope.
 Local Open Scope nat_scope.
 
@@ -889,6 +890,108 @@ Proof.
   split; [cbn [pow]; lra|auto].
 Qed.
 Local Close Scope R_scope.
+
+(* the same with the FINITE-DIFFERENCE Jacobian (Newton<Vec64>::solve): the Jacobian of a decoupled map is exactly
+   diagonal over R (Props/C18.v jacobian_decoupled_diagonal), its diagonal entries are values of f_i' within |delta|
+   of x_i, so q = (L/m)(rho + |delta|) and the final distance is (L/m)(tol/m)(tol/m + |delta|) *)
+Local Open Scope R_scope.
+Definition decoupled_map (dim : nat) (f : nat -> R -> R) (F : list R -> res (list R)) : Prop :=
+  forall x, length x = dim ->
+    exists v, F x = Ok v /\ length v = dim /\ forall i, (i < dim)%nat -> nth i v 0 = f i (nth i x 0).
+
+Theorem newton_fd_decoupled_no_panic : forall (dim : nat) (f f' : nat -> R -> R) F, (1 <= dim)%nat ->
+  decoupled_map dim f F ->
+  forall (a b r : nat -> R) (m Mb L rho tl dl : R), smooth_components dim f f' a b r m Mb L ->
+  0 <= rho -> dl <> 0 ->
+  (forall i, (i < dim)%nat -> a i <= r i - rho - Rabs dl /\ r i + rho + Rabs dl <= b i) ->
+  L / m * (rho + Rabs dl) < 1 ->
+  forall (n : nat) (x0 : list R),
+  (length x0 = dim /\ forall i, (i < dim)%nat -> Rabs (nth i x0 0 - r i) <= rho) ->
+  exists res evs, newton_sys NRl (mkCfg tl dl n x0) F = Ok (res, evs).
+Proof.
+  intros dim f f' F Hd HF a b r m Mb L rho tl dl (H1 & H2 & H3 & H4 & H5 & H6 & H7).
+  exact (Newton2DiagFD.newton_fd_decoupled_total_lemma dim f f' F Hd HF a b r m Mb L rho tl dl H1 H2 H3 H4 H5 H6 H7).
+Qed.
+Check newton_fd_decoupled_no_panic : forall (dim : nat) (f f' : nat -> R -> R) F, (1 <= dim)%nat ->
+  decoupled_map dim f F ->
+  forall (a b r : nat -> R) (m Mb L rho tl dl : R), smooth_components dim f f' a b r m Mb L ->
+  0 <= rho -> dl <> 0 ->
+  (forall i, (i < dim)%nat -> a i <= r i - rho - Rabs dl /\ r i + rho + Rabs dl <= b i) ->
+  L / m * (rho + Rabs dl) < 1 ->
+  forall (n : nat) (x0 : list R),
+  (length x0 = dim /\ forall i, (i < dim)%nat -> Rabs (nth i x0 0 - r i) <= rho) ->
+  exists res evs, newton_sys NRl (mkCfg tl dl n x0) F = Ok (res, evs).
+Print Assumptions newton_fd_decoupled_no_panic.
+
+Theorem newton_fd_decoupled_ok_close : forall (dim : nat) (f f' : nat -> R -> R) F, (1 <= dim)%nat ->
+  decoupled_map dim f F ->
+  forall (a b r : nat -> R) (m Mb L rho tl dl : R), smooth_components dim f f' a b r m Mb L ->
+  0 <= rho -> dl <> 0 ->
+  (forall i, (i < dim)%nat -> a i <= r i - rho - Rabs dl /\ r i + rho + Rabs dl <= b i) ->
+  L / m * (rho + Rabs dl) < 1 ->
+  forall (n : nat) (x0 x : list R) evs,
+  (length x0 = dim /\ forall i, (i < dim)%nat -> Rabs (nth i x0 0 - r i) <= rho) ->
+  newton_sys NRl (mkCfg tl dl n x0) F = Ok (NOk x, evs) ->
+  (length x = dim /\ forall i, (i < dim)%nat -> Rabs (nth i x 0 - r i) <= rho) /\
+  forall i, (i < dim)%nat -> Rabs (nth i x 0 - r i) <= L / m * (tl / m * (tl / m + Rabs dl)).
+Proof.
+  intros dim f f' F Hd HF a b r m Mb L rho tl dl (H1 & H2 & H3 & H4 & H5 & H6 & H7).
+  exact (Newton2DiagFD.newton_fd_decoupled_ok_close_lemma dim f f' F Hd HF a b r m Mb L rho tl dl H1 H2 H3 H4 H5 H6 H7).
+Qed.
+Check newton_fd_decoupled_ok_close : forall (dim : nat) (f f' : nat -> R -> R) F, (1 <= dim)%nat ->
+  decoupled_map dim f F ->
+  forall (a b r : nat -> R) (m Mb L rho tl dl : R), smooth_components dim f f' a b r m Mb L ->
+  0 <= rho -> dl <> 0 ->
+  (forall i, (i < dim)%nat -> a i <= r i - rho - Rabs dl /\ r i + rho + Rabs dl <= b i) ->
+  L / m * (rho + Rabs dl) < 1 ->
+  forall (n : nat) (x0 x : list R) evs,
+  (length x0 = dim /\ forall i, (i < dim)%nat -> Rabs (nth i x0 0 - r i) <= rho) ->
+  newton_sys NRl (mkCfg tl dl n x0) F = Ok (NOk x, evs) ->
+  (length x = dim /\ forall i, (i < dim)%nat -> Rabs (nth i x 0 - r i) <= rho) /\
+  forall i, (i < dim)%nat -> Rabs (nth i x 0 - r i) <= L / m * (tl / m * (tl / m + Rabs dl)).
+Print Assumptions newton_fd_decoupled_ok_close.
+
+Theorem newton_fd_decoupled_ok : forall (dim : nat) (f f' : nat -> R -> R) F, (1 <= dim)%nat ->
+  decoupled_map dim f F ->
+  forall (a b r : nat -> R) (m Mb L rho tl dl : R), smooth_components dim f f' a b r m Mb L ->
+  0 <= rho -> dl <> 0 ->
+  (forall i, (i < dim)%nat -> a i <= r i - rho - Rabs dl /\ r i + rho + Rabs dl <= b i) ->
+  L / m * (rho + Rabs dl) < 1 ->
+  forall (N n : nat) (x0 : list R),
+  (length x0 = dim /\ forall i, (i < dim)%nat -> Rabs (nth i x0 0 - r i) <= rho) ->
+  Mb * ((L / m * (rho + Rabs dl)) ^ N * rho) <= tl -> (N < n)%nat ->
+  exists x evs, newton_sys NRl (mkCfg tl dl n x0) F = Ok (NOk x, evs) /\
+    (length x = dim /\ forall i, (i < dim)%nat -> Rabs (nth i x 0 - r i) <= rho) /\
+    forall i, (i < dim)%nat -> Rabs (nth i x 0 - r i) <= L / m * (tl / m * (tl / m + Rabs dl)).
+Proof.
+  intros dim f f' F Hd HF a b r m Mb L rho tl dl (H1 & H2 & H3 & H4 & H5 & H6 & H7).
+  exact (Newton2DiagFD.newton_fd_decoupled_ok_lemma dim f f' F Hd HF a b r m Mb L rho tl dl H1 H2 H3 H4 H5 H6 H7).
+Qed.
+Check newton_fd_decoupled_ok : forall (dim : nat) (f f' : nat -> R -> R) F, (1 <= dim)%nat ->
+  decoupled_map dim f F ->
+  forall (a b r : nat -> R) (m Mb L rho tl dl : R), smooth_components dim f f' a b r m Mb L ->
+  0 <= rho -> dl <> 0 ->
+  (forall i, (i < dim)%nat -> a i <= r i - rho - Rabs dl /\ r i + rho + Rabs dl <= b i) ->
+  L / m * (rho + Rabs dl) < 1 ->
+  forall (N n : nat) (x0 : list R),
+  (length x0 = dim /\ forall i, (i < dim)%nat -> Rabs (nth i x0 0 - r i) <= rho) ->
+  Mb * ((L / m * (rho + Rabs dl)) ^ N * rho) <= tl -> (N < n)%nat ->
+  exists x evs, newton_sys NRl (mkCfg tl dl n x0) F = Ok (NOk x, evs) /\
+    (length x = dim /\ forall i, (i < dim)%nat -> Rabs (nth i x 0 - r i) <= rho) /\
+    forall i, (i < dim)%nat -> Rabs (nth i x 0 - r i) <= L / m * (tl / m * (tl / m + Rabs dl)).
+Print Assumptions newton_fd_decoupled_ok.
+
+(* the system of newton_decoupled_nonvacuous with delta = 1/10: q = 4/5 *)
+Example newton_fd_decoupled_nonvacuous :
+  decoupled_map 2 (fun _ => cube2) F2w /\ 1 / 10 <> 0 /\
+  (forall i, (i < 2)%nat -> 1 <= rc - 1 / 10 - Rabs (1 / 10) /\ rc + 1 / 10 + Rabs (1 / 10) <= 2) /\
+  12 / 3 * (1 / 10 + Rabs (1 / 10)) < 1 /\
+  12 * ((12 / 3 * (1 / 10 + Rabs (1 / 10))) ^ 0 * (1 / 10)) <= 2.
+Proof.
+  pose proof rc_bounds as Hrc. rewrite (Rabs_right (1 / 10)) by lra.
+  split; [exact F2w_spec|]. split; [lra|]. split; [intros i _; lra|]. split; [lra|cbn [pow]; lra].
+Qed.
+Local Close Scope R_scope.
 (* ======================================================================================
    C18, round two (package newton2) -- to be appended at the END of Props/C18.v.
    The O(delta) claim, over the reals (NRl = the real instance of Proofs/NewtonReal.v): whatever matrix
@@ -1000,3 +1103,31 @@ Example jacobian_truncation_C_nonvacuous :
     (forall t, derivable_pt_lim (fun t => 2 * (1 + t))%R t 2%R) /\ (Rabs 2 <= 2)%R /\
     (forall t, derivable_pt_lim (fun _ : R => 2%R) t 0%R) /\ (Rabs 0 <= 0)%R.
 Proof. exact Newton2JacC.jacobian_truncation_C_witness. Qed.
+
+(* exactness beyond affine maps: the finite-difference Jacobian of a DECOUPLED map F(x)_i = f_i(x_i) is exactly diagonal
+   over R, for every dimension: off the diagonal the quotient is (f_i(x_i) - f_i(x_i)) / delta = 0 *)
+From OV Require Proofs.SolveBase Proofs.Newton2Sys1d Proofs.Newton2DiagFD.
+Theorem jacobian_decoupled_diagonal : forall (dim : nat) (f : nat -> R -> R) (F : list R -> res (list R)),
+  (forall x, length x = dim ->
+     exists v, F x = Ok v /\ length v = dim /\ forall i, i < dim -> nth i v 0%R = f i (nth i x 0%R)) ->
+  forall (x : list R) (d : R), length x = dim -> d <> 0%R ->
+  exists J evs, jacobian NRl F x d = Ok (J, evs) /\ wf J /\ rows J = dim /\ cols J = dim /\
+    forall i j, i < dim -> j < dim ->
+      SolveBase.ent J i j = if i =? j then ((f i (nth i x 0 + d) - f i (nth i x 0)) / d)%R else 0%R.
+Proof. exact Newton2DiagFD.jacobian_decoupled. Qed.
+Check jacobian_decoupled_diagonal : forall (dim : nat) (f : nat -> R -> R) (F : list R -> res (list R)),
+  (forall x, length x = dim ->
+     exists v, F x = Ok v /\ length v = dim /\ forall i, i < dim -> nth i v 0%R = f i (nth i x 0%R)) ->
+  forall (x : list R) (d : R), length x = dim -> d <> 0%R ->
+  exists J evs, jacobian NRl F x d = Ok (J, evs) /\ wf J /\ rows J = dim /\ cols J = dim /\
+    forall i j, i < dim -> j < dim ->
+      SolveBase.ent J i j = if i =? j then ((f i (nth i x 0 + d) - f i (nth i x 0)) / d)%R else 0%R.
+Print Assumptions jacobian_decoupled_diagonal.
+(* F(x, y) = (x^3 - 2, y^3 - 2) is decoupled *)
+From OV Require Proofs.Newton2Wit.
+Example jacobian_decoupled_diagonal_nonvacuous :
+  (forall x, length x = 2 ->
+     exists v, Newton2Wit.F2w x = Ok v /\ length v = 2 /\
+       forall i, i < 2 -> nth i v 0%R = (fun _ : nat => Newton2Wit.cube2) i (nth i x 0%R)) /\
+  length [1%R; 2%R] = 2 /\ (1 / 4)%R <> 0%R.
+Proof. split; [exact Newton2Wit.F2w_spec|]. split; [reflexivity|]. apply Rgt_not_eq. lra. Qed.
